@@ -31,7 +31,8 @@ RULES = {
             "AvgWindowId", "AvgWrongMean", "AvgPartialNotLast", "AvgIncomplete", "AvgNotFloat"},
     "C09": {"Hang", "AppendAfterStorFail", "CameraRunningAfterStop", "StorageRunningAfterStop", "WorkersAliveAfterStop",
             "RunningWithoutWorkers", "NotArmedAfterStop", "StopIncomplete", "StopCameraIncomplete", "StorFrameOrder",
-            "StorFrameMismatch", "StorFrameNotFromCamera", "StartFailed", "ActivityAfterStop"},
+            "StorFrameMismatch", "StorFrameNotFromCamera", "StartFailed", "ActivityAfterStop",
+            "AvgWindowId", "AvgWrongMean", "AvgIncomplete", "AvgPartialNotLast", "AvgNotFloat"},
     "C10": {"AvgNotFloat", "AvgWindowId", "AvgTooManyFrames", "AvgBeforeInputs", "AvgWrongMean", "AvgIncomplete", "AvgPartialNotLast",
             "FrameShape", "FrameSizeField", "StopCameraIncomplete"},
 }
@@ -124,7 +125,7 @@ def gen_config(rng, fam, out, i):
     if fam == "fullring":
         return gen_fullring(rng, out, i)
     ns = 2 if rng.random() < (0.5 if fam == "monitor" else 0.25) else 1
-    avg = rng.choice([2, 2, 3]) if fam == "avg" else (rng.choice([1, 1, 1, 2, 3]) if fam in ("abort", "monitor") else 1)
+    avg = rng.choice([2, 2, 3]) if fam == "avg" else (rng.choice([1, 1, 1, 2, 3]) if fam in ("abort", "monitor", "fault") else 1)
     streams = [stream_line(rng, s, fam, avg) for s in range(ns)]
     fb = max(max(frame_bytes(d["w"], d["h"], d["type"]), acc_bytes(d["w"], d["h"]) if avg > 1 else 0) for d in streams)
     cap = int(fb * rng.choice([1.2, 1.5, 2.0, 2.5, 2.7, 3.3, 5.0])) + rng.randint(1, 9)
@@ -261,7 +262,10 @@ def gen_config(rng, fam, out, i):
             prog += ["yield", str(rng.choice([0, 10, 80])), "pollstate"]
         else:
             prog += ["yield", str(rng.choice([0, 10, 80, 300])), "state", end, "state"]
-        # a failed device has to be configured again before it can be started (it is no longer armed)
+        # a failed device has to be configured again before it can be started (it is no longer armed); a client that tries
+        # without may be refused, and that attempt must leave nothing behind either
+        if rng.random() < 0.35:
+            prog += ["startmay", "state"]
         prog += ["configure", "start", "yield", str(rng.choice([0, 10]))] + (["monitor", str(s), "-1", "0"] if rng.random() < 0.3 else []) + ["stop"]
     elif fam == "avg":
         prev_poll = False
